@@ -333,6 +333,73 @@ def run(chk, facts):
     ok = all(b not in in_loop for b in eof_blocks)
     chk.ob("R-C18-4", "Eof-after-loop", ok, "the Eof is appended after the character loop" if ok else "the Eof is appended inside the character loop", tk.loc)
 
+    # balance: the numbers of Indent and Dedent tokens are differences of ONE level function of the indentation, so they add up to
+    # zero over any sequence of lines.  The three amounts (indent, dedent in State::token; the final flush) are folded over all pairs
+    # (current, new) of indentation columns 1..17 (rules/smalleval.py; the expressions are built from +, -, / by constants: their
+    # deviation from a telescoping sum is periodic in both columns, and 17 covers four periods of the 4-column step):
+    #   net(current, new) = flush(new) - flush(current),  no amount is negative,  flush(1) = 0,
+    # and State::token leaves current = new, flush_indents leaves current = 1 = the initial value.
+    try:
+        from .smalleval import SmallEval, NoEval
+        from .common import inline_lets
+        st_ = syn.one_fn("token", impl_of="State")
+        fl_ = syn.one_fn("flush_indents", impl_of="State")
+        local = {f["name"]: f for f in syn.fns if f["mod"] == st_["mod"] and f.get("impl_of") is None and f.get("body")}
+
+        def amounts(fn, tok):
+            out = []
+            for n in walk(inline_lets(fn["body"])):
+                if n.get("k") == "call" and src(n["f"]).endswith("from_elem") and len(n["args"]) == 2 and f"Token::{tok}" in src(n["args"][0], -30):
+                    out.append(n)
+            return out
+        body_i = inline_lets(st_["body"])
+        ifs = [n for n in walk(body_i) if n.get("k") == "if" and n.get("else") is not None and "line_indent" in src(n["c"], -30) and "cur_indent" in src(n["c"], -30)
+               and n["c"].get("k") != "let"]
+        if len(ifs) != 1:
+            raise AnchorError(f"State::token: {len(ifs)} branches compare line_indent with cur_indent")
+        br = ifs[0]
+
+        def side(block):
+            ind = [n for n in walk(block) if n.get("k") == "call" and src(n["f"]).endswith("from_elem") and len(n["args"]) == 2 and "Token::Indent" in src(n["args"][0], -30)]
+            ded = [n for n in walk(block) if n.get("k") == "call" and src(n["f"]).endswith("from_elem") and len(n["args"]) == 2 and "Token::Dedent" in src(n["args"][0], -30)]
+            if len(ind) + len(ded) != 1:
+                raise AnchorError("State::token: a branch does not produce exactly one run of Indent or Dedent tokens")
+            return (+1, ind[0]["args"][1]) if ind else (-1, ded[0]["args"][1])
+        then_s, else_s = side(br["then"]), side(br["else"])
+        fls = [n for n in walk(inline_lets(fl_["body"])) if n.get("k") == "call" and src(n["f"]).endswith("from_elem") and len(n["args"]) == 2 and "Token::Dedent" in src(n["args"][0], -30)]
+        if len(fls) != 1:
+            raise AnchorError("flush_indents does not produce exactly one run of Dedent tokens")
+        ev = SmallEval(local_fns=local)
+
+        def flush(x):
+            return ev.ev(fls[0]["args"][1], {"self": {"cur_indent": x, "line_indent": x}})
+        bad = None
+        try:
+            if flush(1) != 0:
+                bad = f"flush_indents emits {flush(1)} dedents at indentation column 1"
+            for ci in range(1, 18):
+                for li in range(1, 18):
+                    env = {"self": {"cur_indent": ci, "line_indent": li}}
+                    c = ev.ev(br["c"], env)
+                    sgn, amt_e = then_s if c else else_s
+                    amt = ev.ev(amt_e, env)
+                    if amt < 0 or amt >= 2 ** 31:
+                        bad = bad or f"from column {ci} to column {li}: a negative number of tokens"
+                    elif sgn * amt != flush(li) - flush(ci):
+                        bad = bad or (f"a line in column {li} after one in column {ci} gives {amt} {'Indent' if sgn > 0 else 'Dedent'} token(s), but the flush at the end of input "
+                                      f"emits {flush(li)} dedents from column {li} and {flush(ci)} from column {ci}: the counts are not differences of one level function, so some sequence of lines leaves an Indent without its Dedent (or the reverse)")
+        except NoEval as ex:
+            bad = f"the indent / dedent amounts could not be evaluated ({ex})"
+        chk.ob("R-C18-4", "indent-balance", bad is None, "Indent and Dedent counts are differences of one level function of the indentation column: they add up to zero for every sequence of lines" if bad is None else
+               f"indents and dedents do not add up: {bad}", facts.loc_of(st_))
+        s_tok = src(st_["body"], -30).replace(" ", "")
+        s_fl = src(fl_["body"], -30).replace(" ", "")
+        okc = "self.cur_indent=self.line_indent" in s_tok and "self.cur_indent=1" in s_fl
+        chk.ob("R-C18-4", "indent-state", okc, "State::token leaves current = new indentation; flush_indents resets it to column 1" if okc else
+               "the indentation state is no longer updated to the new column / reset to 1 by the flush", facts.loc_of(st_))
+    except AnchorError as e:
+        chk.anchor_fail("R-C18-4", e)
+
     # ---------------- R-C18-5 ----------------
     try:
         strarm = None
